@@ -473,7 +473,7 @@ func (e *Exec) setRegionArr(o *Obj, r *Region, arr *Term) {
 	r.arr = arr
 }
 
-const iteChainMax = 64
+const iteChainMax = 16
 
 // enter array mode for the cells [base, base+count) of o (all scalars of one width)
 func (e *Exec) makeRegion(o *Obj, base, count int) *Region {
@@ -524,37 +524,89 @@ func (e *Exec) makeRegion(o *Obj, base, count int) *Region {
 	return r
 }
 
+// balanced multiplexer over constant (or arbitrary scalar) cells, selected by the bits of idx
+func (e *Exec) muxTree(cells []Value, idx *Term, lo, n int, bit int) *Term {
+	tc := e.tc
+	if n == 1 {
+		return cells[lo].(*Term)
+	}
+	// split at the highest power of two below n
+	for bit >= 0 && (1<<uint(bit)) >= n {
+		bit--
+	}
+	half := 1 << uint(bit)
+	low := e.muxTree(cells, idx, lo, half, bit-1)
+	high := e.muxTree(cells, idx, lo+half, n-half, bit-1)
+	if low == high {
+		return low
+	}
+	b := tc.Cmp(OpEq, tc.Extract(idx, bit, bit), tc.Const(1, 1))
+	return tc.Ite(b, high, low)
+}
+
+func (e *Exec) allScalar(o *Obj, base, count int) (allConst bool, ok bool) {
+	allConst = true
+	for i := 0; i < count; i++ {
+		t, isT := o.cells[base+i].(*Term)
+		if !isT {
+			return false, false
+		}
+		if !t.IsConst() {
+			allConst = false
+		}
+	}
+	return allConst, true
+}
+
+const romMax = 4096
+
 func (e *Exec) loadSym(p Ptr, t types.Type, n int) Value {
 	s := p.sym
+	tc := e.tc
 	if isAgg(t) || s.stride != 1 {
-		// concretise the index
 		i := int(e.concretize(s.idx, "symbolic index of aggregate element"))
 		return e.load(Ptr{o: p.o, off: p.off + i*s.stride}, t)
 	}
-	if r := p.o.regionAt(p.off); r != nil || s.count > iteChainMax {
-		if r == nil {
-			r = e.makeRegion(p.o, p.off, s.count)
-		}
+	if r := p.o.regionAt(p.off); r != nil {
 		if p.off != r.base {
-			return e.tc.Select(r.arr, e.tc.Bin(OpAdd, s.idx, e.tc.Const(64, uint64(p.off-r.base))))
+			return tc.Select(r.arr, tc.Bin(OpAdd, s.idx, tc.Const(64, uint64(p.off-r.base))))
 		}
-		return e.tc.Select(r.arr, s.idx)
+		return tc.Select(r.arr, s.idx)
 	}
-	// ite chain over the cells
-	var res *Term
-	for i := s.count - 1; i >= 0; i-- {
-		c, ok := p.o.cells[p.off+i].(*Term)
-		if !ok {
-			j := int(e.concretize(s.idx, "symbolic index of non-scalar element"))
-			return e.load(Ptr{o: p.o, off: p.off + j}, t)
+	// 1. small evident value set: ite over just those cells
+	if vals := tc.possibleValues(s.idx, 2); vals != nil {
+		var res *Term
+		for _, v := range vals {
+			if v >= uint64(s.count) {
+				continue // excluded by the bounds obligation
+			}
+			c, ok := p.o.cells[p.off+int(v)].(*Term)
+			if !ok {
+				res = nil
+				break
+			}
+			if res == nil {
+				res = c
+			} else {
+				res = tc.Ite(tc.Cmp(OpEq, s.idx, tc.Const(64, v)), c, res)
+			}
 		}
-		if res == nil {
-			res = c
-		} else {
-			res = e.tc.Ite(e.tc.Cmp(OpEq, s.idx, e.tc.Const(64, uint64(i))), c, res)
+		if res != nil {
+			return res
 		}
 	}
-	return res
+	allConst, scalar := e.allScalar(p.o, p.off, s.count)
+	if scalar && (s.count <= iteChainMax || (allConst && p.o.base && s.count <= romMax)) {
+		// 2. multiplexer tree (ROM encoding for constant tables)
+		return e.muxTree(p.o.cells[p.off:], s.idx, 0, s.count, 62)
+	}
+	if scalar && e.arrayMode {
+		r := e.makeRegion(p.o, p.off, s.count)
+		return tc.Select(r.arr, s.idx)
+	}
+	// 3. fork over the feasible index values
+	j := int(e.concretize(s.idx, "symbolic index into large mutable array"))
+	return e.load(Ptr{o: p.o, off: p.off + j}, t)
 }
 
 func (e *Exec) storeSym(p Ptr, t types.Type, v Value) {
@@ -565,7 +617,7 @@ func (e *Exec) storeSym(p Ptr, t types.Type, v Value) {
 		e.store(Ptr{o: p.o, off: p.off + i*s.stride}, t, v)
 		return
 	}
-	if r := p.o.regionAt(p.off); r != nil || s.count > iteChainMax {
+	if r := p.o.regionAt(p.off); r != nil || (e.arrayMode && s.count > iteChainMax) {
 		if r == nil {
 			r = e.makeRegion(p.o, p.off, s.count)
 		}
@@ -576,16 +628,29 @@ func (e *Exec) storeSym(p Ptr, t types.Type, v Value) {
 		e.setRegionArr(p.o, r, e.tc.Store(r.arr, idx, tv))
 		return
 	}
-	for i := 0; i < s.count; i++ {
-		old, ok := p.o.cells[p.off+i].(*Term)
-		if !ok {
-			j := int(e.concretize(s.idx, "symbolic index of non-scalar element (store)"))
-			e.store(Ptr{o: p.o, off: p.off + j}, t, v)
-			return
+	_, allScalar := e.allScalar(p.o, p.off, s.count)
+	if s.count <= iteChainMax && allScalar {
+		for i := 0; i < s.count; i++ {
+			old := p.o.cells[p.off+i].(*Term)
+			nv := e.tc.Ite(e.tc.Cmp(OpEq, s.idx, e.tc.Const(64, uint64(i))), tv, old)
+			e.writeCell(p.o, p.off+i, nv)
 		}
-		nv := e.tc.Ite(e.tc.Cmp(OpEq, s.idx, e.tc.Const(64, uint64(i))), tv, old)
-		e.writeCell(p.o, p.off+i, nv)
+		return
 	}
+	if vals := e.tc.possibleValues(s.idx, 2); vals != nil && allScalar {
+		for _, x := range vals {
+			if x >= uint64(s.count) {
+				continue
+			}
+			i := int(x)
+			old := p.o.cells[p.off+i].(*Term)
+			nv := e.tc.Ite(e.tc.Cmp(OpEq, s.idx, e.tc.Const(64, x)), tv, old)
+			e.writeCell(p.o, p.off+i, nv)
+		}
+		return
+	}
+	j := int(e.concretize(s.idx, "symbolic index into large array (store)"))
+	e.store(Ptr{o: p.o, off: p.off + j}, t, v)
 }
 
 // ---------- helpers ----------
